@@ -90,11 +90,11 @@ def string(kind, L, npre):
     observe("data", w.to_bytearray())
 
 
-def fixed(kind, L, npre):
-    """kind: fixed_string | fixed_encoded_string ; length and padded symbolic"""
+def fixed(kind, L, npre, lo, hi):
+    """kind: fixed_string | fixed_encoded_string ; length (in [lo, hi]) and padded symbolic"""
     w, pre, mode = fresh(npre)
     s = sym_str("s", L)
-    length = sym_int("length", 0, L + 3)
+    length = sym_int("length", lo, hi)
     pad = sym_bool("padded")
     try:
         if kind == "fixed_string":
